@@ -91,25 +91,30 @@ theorem pad16_ok (pt : Bytes) : ∃ padded, pad pt 16 = .ok padded ∧ padded.le
     have := Nat.mod_lt pt.length (by omega : 16 > 0)
     omega
 
-theorem cbcHmacOpen_np (P : Prims) (p : AeadParams) (key iv c ad : Bytes) (hiv : iv.length = 16) :
+/-- for a nonce of ANY length (fix c71e752: a wrong-size nonce is an error) -/
+theorem cbcHmacOpen_np (P : Prims) (p : AeadParams) (key iv c ad : Bytes) :
     (cbcHmacOpen P p key iv c ad).isPanic = false := by
   unfold cbcHmacOpen
   split
   · rfl
-  · simp only
+  · rename_i hn
+    have hiv : iv.length = 16 := by omega
     split
     · rfl
-    · split
+    · simp only
+      split
       · rfl
-      · rename_i hal
-        obtain ⟨out, hout⟩ := cbcDecrypt_np (P.aes (encKeyOf p key)) iv (c.take (c.length - p.tagSize)) hiv
-          (by simpa using hal)
-        rw [hout]
-        exact unpad_np out 16
+      · split
+        · rfl
+        · rename_i hal
+          obtain ⟨out, hout⟩ := cbcDecrypt_np (P.aes (encKeyOf p key)) iv (c.take (c.length - p.tagSize)) hiv
+            (by simpa using hal)
+          rw [hout]
+          exact unpad_np out 16
 
 theorem cbcHmacAEAD_openSafe (P : Prims) (p : AeadParams) (key : Bytes) : (cbcHmacAEAD P p key).OpenSafe := by
-  intro nonce ct ad hn
-  exact cbcHmacOpen_np P p key nonce ct ad hn
+  intro nonce ct ad _
+  exact cbcHmacOpen_np P p key nonce ct ad
 
 /-- a name the dispatch switch knows is one of the supported names -/
 theorem mem_of_lookup (sw : Switch) (names : List String)
